@@ -531,6 +531,9 @@ static void op_indep(void) {
     if (t < 0 || h_ntok < t + 4) { puts("ERR args"); return; }
     int mode = parse_mode(h_tok[t]); int batch = atoi(h_tok[t+1]); int N = atoi(h_tok[t+2]); int inner = atoi(h_tok[t+3]);
     int premade = h_ntok > t + 4 && !strcmp(h_tok[t+4], "premade");
+    /* "omp": the handles are driven from the caller's own OpenMP threads, so the batch reader's parallel regions are
+     * NESTED (a team of one, unless nesting is enabled) */
+    int use_omp = h_ntok > t + 4 && !strcmp(h_tok[h_ntok - 1], "omp");
     if (N < 1) N = 1; if (N > 64) N = 64;
     if (!premade) { int mk = make_file(&f); if (mk) { printf("ERR mkfile %d\n", mk); return; } }
     /* buffer mode: all readers share ONE caller-owned buffer (read-only for the library) */
@@ -545,8 +548,17 @@ static void op_indep(void) {
     pthread_barrier_t bar; pthread_barrier_init(&bar, NULL, (unsigned)N);
     indep_arg* a = calloc((size_t)N, sizeof *a); pthread_t* th = calloc((size_t)N, sizeof *th);
     for (int i = 0; i < N; i++) { a[i].f = &f; a[i].mode = mode; a[i].batch = batch; a[i].inner = inner; a[i].bar = &bar; a[i].shared_buf = sb; a[i].shared_len = sl; }
-    for (int i = 0; i < N; i++) pthread_create(&th[i], NULL, indep_thread, &a[i]);
-    for (int i = 0; i < N; i++) pthread_join(th[i], NULL);
+    if (use_omp) {
+        for (int i = 0; i < N; i++) a[i].bar = NULL;
+        int oi;
+#ifdef _OPENMP
+        #pragma omp parallel for num_threads(N) schedule(static, 1)
+#endif
+        for (oi = 0; oi < N; oi++) indep_thread(&a[oi]);
+    } else {
+        for (int i = 0; i < N; i++) pthread_create(&th[i], NULL, indep_thread, &a[i]);
+        for (int i = 0; i < N; i++) pthread_join(th[i], NULL);
+    }
     pthread_barrier_destroy(&bar);
     indep_arg alone; memset(&alone, 0, sizeof alone);
     alone.f = &f; alone.mode = mode; alone.batch = batch; alone.inner = 1; alone.shared_buf = sb; alone.shared_len = sl;
